@@ -1000,7 +1000,6 @@ func (c *Client) dialAndConnect(config *Config) (net.Conn, *bufio.Reader, error)
 
 	// Don't make Close wait on a slow connect.
 	done := make(chan struct{})
-	defer close(done)
 	abort := make(chan error, 1)
 	go func() {
 		defer close(abort)
@@ -1017,7 +1016,7 @@ func (c *Client) dialAndConnect(config *Config) (net.Conn, *bufio.Reader, error)
 	// ⚠️ delayed error check
 	verifYield("handshake.done")
 
-	done <- struct{}{}
+	close(done) // abort may have left already
 	e := <-abort
 	if e != nil {
 		// abort closed connection
